@@ -183,6 +183,16 @@ impl Responder {
         !self.reorged_trackers.lock().unwrap().is_empty()
     }
 
+    /// Forgets what `bitcoind` answered about the transactions handed to it so far.
+    ///
+    /// The [Carrier] remembers its receipts so the same penalty is not sent over and over while a block is being processed.
+    /// A receipt issued before a block says nothing once the block is there (e.g. a penalty rejected for missing inputs
+    /// becomes valid when the block brings its dispute transaction), so the [Watcher](crate::watcher::Watcher), which sees
+    /// new blocks first, calls this before handling their breaches.
+    pub(crate) fn forget_receipts(&self) {
+        self.carrier.lock().unwrap().clear_receipts();
+    }
+
     /// Data entry point for the [Responder]. Handles a [Breach] provided by the [Watcher](crate::watcher::Watcher).
     ///
     /// Breaches can either be added to the [Responder] in the form of a [TransactionTracker] if the [penalty transaction](Breach::penalty_tx)
